@@ -75,9 +75,14 @@ def validate(ctx, traces, label, prop):
         ctx.violation(sig, text, {"kind": "settings", "history": traces[k]["case"]}, info)
 
 
+DICT_ARG = ["pipeline", "photon_collection", "m1", "arguments", "opt"]
+
+
 def in_scope(case):
     """C08 keeps its values inside the documented ranges (C12 decides those)."""
     for op in case["ops"]:
+        if op["key"] == DICT_ARG:
+            return False      # the dictionary-valued argument as a whole is a setting too; its entries are what is modelled
         if op["path"] not in ("sweep", "override"):
             return False
         # named deviations (explicit refusals, never silent): a sweep over an `enabled` flag is refused by
@@ -133,6 +138,8 @@ def run(ctx):
         for j in range(rng.randint(1, 3)):
             leaf = rng.choice(leaves)
             key = leaf if rng.random() < 0.5 else mutate(rng, leaf)
+            if key == DICT_ARG:
+                key = leaf
             if key != leaf and [c.lstrip("_") for c in key] == list(leaf):
                 key = leaf          # private twins (..._quantum_efficiency) are not generated (see assumptions)
             path = "override" if j < 2 and rng.random() < 0.6 else "sweep"
